@@ -29,6 +29,7 @@ type ReplayFile struct {
 	Msg      string      `json:"msg"`
 	Values   []ReplayVal `json:"values"`
 	Log      []string    `json:"log,omitempty"`
+	History  string      `json:"history,omitempty"`
 	Pkg      string      `json:"pkg"`
 }
 
@@ -66,7 +67,7 @@ func writeReplay(prop, name string, j Job, v sym.Violation) string {
 	dir := filepath.Join(VerifDir, "replays", prop)
 	os.MkdirAll(dir, 0o755)
 	rf := ReplayFile{Property: prop, Harness: j.H.Name, HasParam: j.H.HasParam, Param: j.Param, Mode: "violation",
-		Label: v.Label, Pos: v.Pos, Msg: v.Msg, Values: nondetValues(v.Nondets, v.Model), Pkg: pkgOf(j)}
+		Label: v.Label, Pos: v.Pos, Msg: v.Msg, Values: nondetValues(v.Nondets, v.Model), Pkg: pkgOf(j), History: v.History}
 	for _, l := range v.Log {
 		s := l.Tag
 		for _, t := range l.Vals {
@@ -193,7 +194,12 @@ func NativeReplay(ld *Loaded, j Job, v sym.Violation, replayPath string) (bool, 
 			if v.Label == "panic" {
 				return strings.Contains(l, " panic=true"), l
 			}
-			return strings.Contains(l, " failed=["+v.Label+"]") || strings.Contains(l, "["+v.Label+"]") && strings.Contains(l, "failed="), l
+			for _, lb := range append([]string{v.Label}, nativeAliases[v.Label]...) {
+				if strings.Contains(l, "["+lb+"]") {
+					return true, l
+				}
+			}
+			return false, l
 		}
 	}
 	return false, out
@@ -220,4 +226,17 @@ func NativeWitness(ld *Loaded, j Job, label string, nd []sym.Nondet, model map[s
 		}
 	}
 	return false, out
+}
+
+
+// nativeAliases: ledger assertions live in allocator stubs that are not installed in the
+// native build; their native manifestation is a damaged lease or a damaged Slice reader after
+// the pool has been scribbled over.
+var nativeAliases = map[string][]string{
+	"C02/free-while-leased":                      {"C02/lease-content-changed", "C01/drain-slice-bytes"},
+	"C02/free-while-slice-reader-shares-block":   {"C02/lease-content-changed", "C01/drain-slice-bytes"},
+	"C02/result-in-freed-block":                  {"C02/lease-content-changed", "C01/drain-slice-bytes"},
+	"C02/lease-block-freed":                      {"C02/lease-content-changed"},
+	"C03/free-before-every-reader-released":      {"C02/lease-content-changed", "C01/drain-slice-bytes"},
+	"C03/double-free":                            {"C02/lease-content-changed"},
 }
